@@ -896,3 +896,44 @@ Proof.
   destruct (tick_step P b k c e d He Ho) as (H1 & _ & H3 & H4 & _).
   repeat split; auto. intros m. rewrite status_after_snoc. apply (ghost_ev_tick _ e d m Ho).
 Qed.
+
+(* ------------------------------------------------------------------ the store is reopened *)
+(* a reopen step (operation OReopen, at any point of any run, on ANY backend and for any constants)
+   issues the primitive PReopen, returns, and changes neither the store nor the status of any lock *)
+Lemma ghost_ev_reopen : forall g e m, e_op e = OReopen -> ghost_ev g e m = g m.
+Proof.
+  intros g e m H. unfold ghost_ev. rewrite H. cbn [ghost_upd]. unfold updg.
+  destruct (Nat.eqb m (e_n e)) eqn:E; auto. apply Nat.eqb_eq in E. now subst.
+Qed.
+
+Lemma reopen_step : forall P b k c e,
+  snd (sched_step P b k c) = Some e -> e_op e = OReopen ->
+  e_prim e = PReopen /\ e_resp e = RU /\ e_ret e = Some OU /\
+  (forall m, sh (fst (sched_step P b k c)) m = sh k m) /\
+  (forall m, gh (fst (sched_step P b k c)) m = gh k m).
+Proof.
+  intros P b k c e He Ho. unfold sched_step in *.
+  destruct (pick (cls k c)) as [[[[o n] pc] rest]|]; [|discriminate He].
+  assert (Hop : o = OReopen).
+  { destruct (op_next P b o pc (snd (runp P (sh k) (op_prim P b o n pc)))); cbn in He; inversion He; subst e; exact Ho. }
+  subst o.
+  assert (Hp : op_prim P b OReopen n pc = PReopen) by (destruct b; reflexivity).
+  rewrite Hp in *. cbn [runp fst snd] in *.
+  assert (Hn : op_next P b OReopen pc RU = Done OU) by (destruct b; try reflexivity; destruct pc; reflexivity).
+  rewrite Hn in *. cbn [fst snd] in *. inversion He; subst e. cbn.
+  repeat split; auto.
+  intros m. unfold updg. destruct (Nat.eqb m n) eqn:E; auto. apply Nat.eqb_eq in E. now subst.
+Qed.
+
+Theorem run_reopen : forall P b hists s1 c e,
+  let k := cfg_after P b hists s1 in
+  let k' := fst (sched_step P b k c) in
+  snd (sched_step P b k c) = Some e -> e_op e = OReopen ->
+  e_prim e = PReopen /\ e_ret e = Some OU /\
+  (forall m, sh k' m = sh k m) /\
+  (forall m, status_after (trace_of P b hists s1 ++ [e]) m = status_after (trace_of P b hists s1) m).
+Proof.
+  intros P b hists s1 c e k k' He Ho.
+  destruct (reopen_step P b k c e He Ho) as (H1 & _ & H3 & H4 & _).
+  repeat split; auto. intros m. rewrite status_after_snoc. apply (ghost_ev_reopen _ e m Ho).
+Qed.
